@@ -152,6 +152,72 @@ def rule_sample_sibling(ctx):
     ctx.floor(rid + ".methods", 8)
 
 
+def rule_width_sibling(ctx):
+    """the 16-bit and 32-bit scalar kernels of the Modular transforms are the same computation"""
+    import collections
+    rid = "R-WIDTH-SIBLING"
+    ctx.rule(rid, "the inverse transforms of jxl_modular come as pairs of free functions named ..._i16... / ..._i32... (RCT row kernel, "
+                  "squeeze kernels and their `tendency`).  For every pair of scalar bodies (no target_feature) the multiset of operations "
+                  "- MIR binary operators (overflow-checked and unchecked forms unified) and resolved callees with the integer width "
+                  "unified, also inside function names - is the same; a dispatcher pair may differ only by the 16-bit side's CPU-feature "
+                  "tests and SIMD kernels.  A rounding helper (midpoint), a saturating or widening step on one side only changes "
+                  "samples that fit in 16 bits")
+    md = ctx.prog.crate("jxl_modular")
+    pairs = {}
+    for f in md.fn_list:
+        if f.kind not in ("Fn", "AssocFn") or f.tf or not f.path.startswith("jxl_modular::transform::"):
+            continue
+        last = f.path.split("::")[-1]
+        m = re.search(r"_(i16|i32)(?=_|$)", last)
+        if m:
+            pairs.setdefault((f.path.rsplit("::", 1)[0], last[:m.start()] + "_N" + last[m.end():]), {})[m.group(1)] = f
+
+    def sig(f, depth=2):
+        """operations of f; scalar helpers of the transform module are expanded in place (an extracted per-sample helper on one
+        side is the same computation)"""
+        out = collections.Counter()
+        for b, blk in enumerate(f.blocks):
+            if blk[2]:
+                continue
+            for st in blk[0]:
+                if st[0] == "=" and st[2][0] == "bin":
+                    out["op:" + st[2][1].replace("WithOverflow", "").replace("Unchecked", "")] += 1
+            t = blk[1]
+            if t[0] == "call":
+                c = callee(t)
+                raw = (c.get("res") or c["fn"]) if c else "?"
+                h = md.fns.get(raw) or (md.fns.get(c["fn"]) if c else None)
+                if h is not None and depth > 0 and not h.tf and h.path.startswith("jxl_modular::transform::") and h is not f:
+                    out += sig(h, depth - 1)
+                    continue
+                nm = re.sub(r"\b(i16|i32|i64|u16|u32)\b", "N", strip_generics(raw))
+                out[re.sub(r"_(i16|i32)(?=_|$|:)", "_N", nm)] += 1
+        return out
+
+    n = 0
+    for key, d in sorted(pairs.items()):
+        if len(d) != 2:
+            continue
+        n += 1
+        ctx.seen(d["i16"])
+        ctx.seen(d["i32"])
+        a, b = sig(d["i16"]), sig(d["i32"])
+        k = "pair:%s::%s" % (key[0].split("::")[-1], key[1])
+        if a == b:
+            ctx.ok(rid, k, "identical operations (%d)" % sum(a.values()), nontrivial=True, fn=d["i16"])
+            continue
+        only16, only32 = a - b, b - a
+        simd = all("__is_feature_detected" in x or "is_aarch64_feature_detected" in x or re.search(r"_(x86_64|aarch64|wasm32)_", x)
+                   for x in only16)
+        if not only32 and simd:
+            ctx.ok(rid, k, "dispatcher: the 16-bit side adds %d CPU-feature tests / SIMD kernels, otherwise identical" % sum(only16.values()), fn=d["i16"])
+        else:
+            ctx.bad(rid, k + "|kernels-differ", "%s: the 16-bit and the 32-bit bodies use different operations (only 16-bit: %s; only 32-bit: %s)"
+                    % (key[1], sorted(x.split("::")[-1] for x in only16), sorted(x.split("::")[-1] for x in only32)), fn=d["i16"])
+    ctx.count(rid + ".pairs", n)
+    ctx.floor(rid + ".pairs", 3)
+
+
 def rule_narrowpred(ctx):
     rid = "R-NARROWPRED"
     ctx.rule(rid, "RenderContext::narrow_modular is exactly `!force_wide_buffers && image_header.metadata.modular_16bit_buffers` (complete "
@@ -249,6 +315,7 @@ def main(pid, tier, repo=None):
     rule_narrowpred(ctx)
     rule_buffer_sibling(ctx)
     rule_sample_sibling(ctx)
+    rule_width_sibling(ctx)
     rule_narrow_saturate(ctx)
     ctx.not_decided("sample-for-sample equality of the two decodes; the arithmetic of the i16 SIMD squeeze kernels against the scalar code "
                     "(head/tail handling per width class); that 16-bit intermediates never overflow for depths up to 12 bits")
